@@ -109,6 +109,18 @@ package brontide
 //@   ensures !called(Put)
 //@   nowrap
 //@
+//@ // ---- every message read gets storage of its own (allocated by this call, sized by the authenticated header): the plaintext handed out
+//@ // ---- aliases neither the machine's buffers nor an earlier message, so reading the next message cannot alter one already delivered
+//@ func (b *Machine) ReadMessage
+//@   props C11
+//@   bounds-safe
+//@   site call ReadBody: assert arg(0) == b && arg(1) == r && callfresh(arg(2)) && len(arg(2)) == retn(ReadHeader, 0) && retn(ReadHeader, 1) == nil
+//@   site call ReadHeader: assert arg(0) == b && arg(1) == r
+//@   // (the key rotates every 1000 messages; the rotation arithmetic is decided in the cipher state's own contracts)
+//@   site call ReadHeader as nonce-domain-header: domain b.recvCipher.nonce < 1000
+//@   site call ReadBody as nonce-domain: domain b.recvCipher.nonce < 1000
+//@   ensures result1 == nil ==> called(ReadBody) && result0 == retn(ReadBody, 0) && retn(ReadBody, 1) == nil
+//@
 //@ func (b *Machine) ReadHeader
 //@   props C11
 //@   bounds-safe
@@ -124,6 +136,8 @@ package brontide
 //@   requires b.recvCipher.nonce < 1000
 //@   site call ReadFull: assert arg(1) == buf
 //@   site call Decrypt: assert arg(0) == addr(b.recvCipher) && arg(cipherText) == buf && retn(ReadFull, 1) == nil
+//@   // what is handed out is what the cipher authenticated and decrypted: no success without reading and decrypting the body
+//@   ensures result1 == nil ==> called(ReadFull) && retn(ReadFull, 1) == nil && called(Decrypt) && retn(Decrypt, 1) == nil && result0 == retn(Decrypt, 0)
 //@
 //@ func (b *Machine) RecvActOne
 //@   props C11
@@ -232,6 +246,9 @@ package brontide
 //@   props C11
 //@   loop * havoc
 //@   bounds-safe
+//@   // the message handed to the peer code is the one the noise machine read from THIS connection and authenticated
+//@   site call ReadMessage: assert arg(0) == c.noise && arg(1) == c.conn
+//@   ensures called(ReadMessage) && result0 == retn(ReadMessage, 0) && result1 == retn(ReadMessage, 1)
 //@
 //@ func (c *Conn) Read
 //@   props C11
@@ -240,6 +257,10 @@ package brontide
 //@   // the stream view never reads from an empty buffer (bytes.Buffer.Read would report io.EOF on a healthy connection after a
 //@   // zero-length message - finding F30): bytes are handed out only when the buffer holds some
 //@   site call Read: assert ret(Len, 0) != 0
+//@   // bytes come out of the buffer only, and the buffer is filled only with what the noise machine read from this connection and authenticated
+//@   site call ReadMessage: assert arg(0) == c.noise && arg(1) == c.conn
+//@   site call Write: assert arg(1) == retn(ReadMessage, 0) && retn(ReadMessage, 1) == nil
+//@   ensures result1 == nil ==> called(Read) && result0 == retn(Read, 0)
 //@
 //@ func (c *Conn) Close
 //@   props C11
